@@ -442,6 +442,7 @@ type DAGOpts struct {
 	Wide        bool // manifests with many layers (contended permits)
 	FewBytes    bool // blobs drawn from three byte strings only (aliases under several media types)
 	EmbMeta     bool // index children may carry annotations / artifactType on the embedding descriptor
+	AliasToOCI  bool // keep same-bytes-two-media-types nodes even when the DESTINATION is digest-addressed (oci)
 	BlobRich    bool // at least six nodes, images with >= 3 layers, artifacts with >= 2 blobs
 }
 
